@@ -119,6 +119,17 @@ class P(Prop):
         (M, "TV.C09.estimate_spec", "T5: one call of estimate on any well-formed track (whatever it carried: hmm_* of an earlier decoding, of the user, a copy) raises nothing, or-s log into the object, writes STATES[k][i_k] and the recorded cost of the decoding of THIS call's tables at every epoch, leaves every other feature unchanged"),
         (M, "TV.C09.estimate_optimal", "T6: end to end over an ordered additive group: the states read from hmm_inference after the call are candidates of their epochs and form a minimal-cost sequence for the tables of this call; hmm_cost at the last epoch is that minimum"),
         (M, "TV.C09.estimate_twice", "T7: two calls on the same track (other object / model / observations / flag / mode): after the second call the result features hold the decoding of the second call, compiled from the track as the first call left it"),
+        (M, "TV.C09.estimate_positions", "T8 (modes 3,4,5): the call writes no coordinate of any object (own positions and state objects keep theirs, also a state that is the position object of another epoch or is shared by several epochs); in modes 3,4,5 the position of every epoch is rebound to the state object recorded in hmm_inference, in every other mode every position is the object it was"),
+        (M, "TV.C09.positions_as_observations", "T9: the names x, y, z as observations read the coordinates of the object the position of that epoch is when the call is made (MarkovRegularization: obs=[x,y,z], mode 4)"),
+        (M, "TV.C09.estimate_then_xyz", "T8+T9: after a decoding in mode 3,4,5, x / y / z of every epoch read the coordinates of the decoded state of that epoch"),
+        (M, "TV.C09.any_sequence_of_candidates", "T10: S(track,k) is used through len() and [i] only: when every epoch's return value has a length (list, tuple, numpy array, range, deque, user sequence) the call is estimate on the items in index order - same flag, track, exception"),
+        (M, "TV.C09.negative_likelihood_raises", "T12: flag unset and some value returned by P / Q for a candidate (pair) is outside the domain of math.log once 1e-300 is added (a negative 'likelihood'): ValueError from the first column / forward pass, nothing of the track written"),
+        (M, "TV.C09.no_domain_error_of_log", "with the flag set (constructor, setLog or the argument of the call) nothing is converted: math.log is not called"),
+        (M, "TV.C09.paths_below_of_bounded", "the sentinel hypothesis made checkable: no table entry above B >= 0 and 2N*B below the sentinel imply PathsBelow"),
+        (M, "TV.C09.likelihood_form_nonneg", "T4': for non-negative likelihoods (zeros and values above 1 included), guard 0 < eps <= 1 and 2N*(-log eps) below the sentinel (code's constants: < 1e296 epochs) the decoded sequence has maximal guarded joint likelihood and the last recorded cost is -log of it - no hypothesis on running costs"),
+        (M, "TV.C09.candidates_without_length", "T11: S returning at some epoch something without a length (generator, None, a bare state): TypeError, the flag or-ed into the object, nothing of the track written"),
+        ("TracklibVerif.Lemmas.HmmPos", "TV.Hmm.writeBack_forward_pos", "the backward loop in modes 3,4,5: the position of every epoch j is rebound to STATES[j][back j], the object written to hmm_inference[j]"),
+        ("TracklibVerif.Lemmas.HmmPos", "TV.Hmm.writeBack_xyz", "the backward loop, whatever the tables and wherever it stops: no coordinate of the track's own position objects is written"),
         (H, "TV.Hmm.writeBack_forward", "the backward loop with its writes: hmm_inference[j] = STATES[j][back j], hmm_cost[j] = TAB_VAL[j][back j] for every epoch, nothing else touched, no exception"),
         (H, "TV.Hmm.estimate_last_empty", "an empty candidate list at the last epoch: ValueError after the two features were created, nothing decoded, other features unchanged"),
         ("TracklibVerif.Lemmas.ViterbiTable", "TV.Viterbi.decode_eq", "refinement: the table-building decode equals the function-style back-pointer path from a minimal last state with the function-style values"),
@@ -127,31 +138,41 @@ class P(Prop):
     partial = []
     open_statements = [
         "IEEE-754: monotonicity of float + on finite values and the rounding of math.log are not proved (theorems are over linear orders / ordered monoids / groups / reals); the float streams are covered by the correspondence and the sampled oracle only",
-        "numpy.argmin on NaN, infinite user-supplied logs and path costs >= 1e300 (sentinel reached) are outside the hypotheses",
-        "the user functions S, Q, P are parameters of the model (any functions of state, observation, epoch and track); exceptions raised by them, and math.log of a negative 'likelihood' (ValueError), are not modelled",
-        "feature names x, y, z, t, timestamp as observations (read from the positions, which modes 3,4,5 overwrite) are outside the model (`unsupported`); MarkovRegularization uses them",
+        "numpy.argmin on NaN, infinite user-supplied logs and path costs >= 1e300 (sentinel reached) are outside the hypotheses (PathsBelow is discharged for bounded entries and for non-negative likelihoods: paths_below_of_bounded, likelihood_form_nonneg; user-supplied logarithms without a bound keep it as a hypothesis)",
+        "the user functions S, Q, P are parameters of the model (any functions of state, observation, epoch and track); exceptions raised by them are not modelled (math.log of a negative 'likelihood' is: T12)",
+        "feature names t, timestamp as observations are outside the model (`unsupported`; x, y, z are modelled: T9); writing x, y, z through setObsAnalyticalFeature (an in-place write of the position object by the USER) is outside the model",
+        "object identity: the model represents a state by its label and a position by a reference (own object / state object), with no writer of a coordinate, so 'estimate does not modify what S returned' is a property of the model by construction (T8: xyz unchanged, stXYZ a constant); that the IMPLEMENTATION modifies neither a state object nor a container is checked by the harness after every call (every candidate re-read by value, every container re-read by identity), not proved",
+        "S returning a container whose len() / [i] have side effects or disagree (a dict, a one-shot view), or a bare state that itself has a length (a str, a tuple: its items become the candidates) are outside the model",
     ]
     modelled = ("tracklib/algo/dynamics.py: HMM.__init__ / setLog / setStates / setTransitionModel / setObservationModel (the object: S, Q, P, log), "
-                "HMM.Qlog / HMM.Plog (conversion -log(v + 1e-300) unless the flag is set), HMM.__getObs (feature values of the epoch, the first two / three "
+                "HMM.Qlog / HMM.Plog (conversion -log(v + 1e-300) unless the flag is set; ValueError of math.log when v + 1e-300 <= 0), HMM.__getObs (feature values of the epoch, the first two / three "
                 "fields merged into a Coords in modes 1,3 / 2,4, exit() when there are too few), HMM.estimate as a whole: self.log = self.log or log, "
-                "compilation of STATES and OBS before any write, first column, forward recursion with the 1e300 sentinel and strict <, "
+                "compilation of STATES (whatever S returns: used through len() and [i]; TypeError of len() on a generator / None / bare state before anything is written) "
+                "and OBS before any write, first column, forward recursion with the 1e300 sentinel and strict <, "
                 "createAnalyticalFeature of the two result names (no-op when present), numpy.argmin of the last column, backward loop writing the state "
                 "OBJECT and the recorded cost per epoch and the position in modes 3,4,5, with the partial writes left by an IndexError / ValueError on "
                 "an epoch without candidates; tracklib/core/track.py as far as this path uses it: createAnalyticalFeature, setObsAnalyticalFeature, "
-                "getObsAnalyticalFeature(s) on the name -> column table, copy(). There is no decoding mode besides Viterbi: `mode` only selects how "
+                "getObsAnalyticalFeature(s) on the name -> column table and on the names x, y, z (coordinates of the object the position is: the track's own, "
+                "or the state object bound there by a decoding in mode 3,4,5), copy(). There is no decoding mode besides Viterbi: `mode` only selects how "
                 "observations are assembled and whether positions are overwritten; `verbose` only prints (randomised by the harness, not a parameter of the model)")
     trusted = ["numpy.argmin returns the first minimum of a list of finite numbers (modelled as a strict-< scan; exercised by the correspondence)",
                "math.log / Lean Float.log (C library) in the likelihood streams; the theorems about likelihoods are over the reals",
-               "copy.deepcopy of a track yields an independent track with equal features (the model's tracks are values)"]
+               "copy.deepcopy of a track yields an independent track with equal features (the model's tracks are values)",
+               "len() and integer indexing (with a Python int or a numpy.int64) of the containers S returns - tuple, numpy.ndarray, collections.deque, range - are Python's / numpy's: the model sees the items in index order"]
     rule = ("single calls: user-supplied S/Q/P read from tables, states labelled 10*epoch+index and callbacks that raise when called with a state or "
             "observation of the wrong epoch; enumerated blocks of all tables of a shape over {0,-1,-2} (logs) and {0,0.5,1} (likelihoods); "
-            "random shapes to T=8, S=5 with integer, dyadic and float values; the flag given to the constructor, to setLog or to estimate(). "
+            "random shapes to T=8, S=5 with integer, dyadic and float values; the flag given to the constructor, to setLog or to estimate(); "
+            "S returning a list, tuple, numpy array, range or user sequence. "
             "histories (props/c09sess.py): tracks of 1..8 epochs with 1..3 discrete observation features whose values repeat, 1..4 models whose P depends on "
             "(state label, observed value, epoch) and Q on (label, label, epoch) (time-inhomogeneous or stationary), candidate lists over 1..4 labels that "
             "repeat across epochs (and inside one), state objects of 8 kinds (ints, strings, tuples, unhashable lists, equal-but-distinct hashable / "
-            "unhashable objects, identity objects, positions), 1..3 HMM objects, 1..4 estimate calls interleaved with setLog / setStates / "
+            "unhashable objects, identity objects, positions, positions of the track itself), 1..3 HMM objects, 1..4 estimate calls interleaved with setLog / setStates / "
             "setTransitionModel / setObservationModel, edits of observations, copy() of the track, user features named hmm_inference / hmm_cost, "
-            "hmm_inference / hmm_cost / idx used as observations, modes 0..6, all verbose levels; the oracle re-derives the optimum of EVERY call by "
+            "hmm_inference / hmm_cost / idx / x / y / z used as observations, modes 0..6, all verbose levels; S returning per epoch a list, tuple, numpy array "
+            "(int64 / object), user class with __len__/__getitem__, deque or range - or a generator / None / bare state (TypeError, outside the statement); "
+            "state objects and containers fresh at every call, or constants of the session, or ONE container object for all epochs; flavour trackpos: the "
+            "candidate states are the position OBJECTS of the decoded track (other epochs' positions), decoded in modes 3,4,5 too; every label is read from the "
+            "state's VALUE after the call and every candidate / container is re-read after the call; the oracle re-derives the optimum of EVERY call by "
             "enumeration from the tables and the observations that call was given. non-trivial = at least 2 epochs and at least 2 candidate sequences")
 
     # ------------------------------------------------------------------ setup / implementation
@@ -162,15 +183,17 @@ class P(Prop):
         self.Obs, self.ENU, self.ObsTime, self.Track, self.dyn = Obs, ENUCoords, ObsTime, Track, dynamics
         self.runner = SS.Runner(Obs, ENUCoords, ObsTime, Track, dynamics)
 
-    def run_hmm(self, n, Pt, Qt, log, via="ctor"):
-        """decode through the public API; returns {"states": labels, "cost": recorded hmm_cost}"""
+    def run_hmm(self, n, Pt, Qt, log, via="ctor", cont="list"):
+        """decode through the public API; returns {"states": labels, "cost": recorded hmm_cost}.
+        `cont`: the type of what S returns (estimate() only uses len() and [i])"""
         N = len(n)
         tr = self.Track([self.Obs(self.ENU(float(k), 0.0, 0.0), self.ObsTime.readUnixTime(60 * k)) for k in range(N)])
         if N > 0:
             tr.createAnalyticalFeature("yk", [float(k) for k in range(N)])
 
         def S(track, k):
-            return [10 * k + l for l in range(n[k])]
+            labs = [10 * k + l for l in range(n[k])]
+            return SS.make_container(cont, labs, labs, "int")
 
         def Qf(s1, s2, k, track):
             if s1 // 10 != k or s2 // 10 != k + 1:
@@ -193,7 +216,8 @@ class P(Prop):
             h.estimate(tr, "yk", log=log, mode=self.dyn.MODE_OBS_AS_SCALAR, verbose=self.dyn.MODE_VERBOSE_NONE)
         states = [tr.getObsAnalyticalFeature("hmm_inference", k) for k in range(N)]
         cost = [tr.getObsAnalyticalFeature("hmm_cost", k) for k in range(N)]
-        states = [int(s) if isinstance(s, (int,)) and not isinstance(s, bool) else repr(s) for s in states]
+        import numpy as np
+        states = [int(s) if isinstance(s, (int, np.integer)) and not isinstance(s, bool) else repr(s) for s in states]
         cost = [c if isinstance(c, int) and not isinstance(c, bool) else float(c) for c in cost]
         return {"states": states, "cost": cost}
 
@@ -211,11 +235,11 @@ class P(Prop):
         return ([[math.log(v + 1e-300) for v in row] for row in Pt],
                 [[[math.log(v + 1e-300) for v in row] for row in blk] for blk in Qt])
 
-    def run_config(self, n, Pt, Qt, log, via="ctor"):
+    def run_config(self, n, Pt, Qt, log, via="ctor", cont="list"):
         if log:
-            return {"log": self.safe_run(n, Pt, Qt, True, via)}
+            return {"log": self.safe_run(n, Pt, Qt, True, via, cont)}
         LP, LQ = self.logs_of(Pt, Qt)
-        return {"lik": self.safe_run(n, Pt, Qt, False, via), "log": self.safe_run(n, LP, LQ, True, via)}
+        return {"lik": self.safe_run(n, Pt, Qt, False, via, cont), "log": self.safe_run(n, LP, LQ, True, via, cont)}
 
     def items(self, case):
         """the explicit configurations (n, P, Q, log, exact) a case stands for"""
@@ -233,7 +257,7 @@ class P(Prop):
                 return {"err": "invalid-session"}
             return self.runner.run(case)
         via = case.get("via", "ctor")
-        outs = [self.run_config(n, Pt, Qt, log, via) for (n, Pt, Qt, log, ex) in self.items(case)]
+        outs = [self.run_config(n, Pt, Qt, log, via, case.get("cont", "list")) for (n, Pt, Qt, log, ex) in self.items(case)]
         return {"items": outs}
 
     # ------------------------------------------------------------------ model
@@ -445,7 +469,8 @@ class P(Prop):
         log, exact = self.FLAVOURS[fl]
         Pt, Qt = self.rand_tables(rng, n, fl)
         return {"kind": "rand", "flavour": fl, "log": log, "exact": exact, "n": n, "P": Pt, "Q": Qt,
-                "via": rng.choice(["ctor", "ctor", "setter", "estimate-arg"])}
+                "via": rng.choice(["ctor", "ctor", "setter", "estimate-arg"]),
+                "cont": rng.choice(["list"] * 5 + ["tuple", "nparray", "range", "userseq", "deque"])}
 
     def cases(self, rng, tier):
         out = []
@@ -478,7 +503,7 @@ class P(Prop):
             Pt, Qt = self.rand_tables(rng, n, fl)
             out.append({"kind": "rand", "flavour": fl, "log": log, "exact": exact, "n": n, "P": Pt, "Q": Qt})
         # histories of calls (props/c09sess.py)
-        for _ in range(60000 if thorough else 4000):
+        for _ in range(50000 if thorough else 6000):
             out.append(SS.gen_session(rng))
         for _ in range(400 if thorough else 30):
             out.append(SS.gen_session(rng, big=True))
@@ -511,7 +536,7 @@ class P(Prop):
             return SS.describe(case)
         n = case["n"]
         return {"kind": case["kind"], "T": len(n), "maxS": max(n) if n else 0, "values": ("log " if case["log"] else "lik ") + case.get("flavour", "3-set"),
-                "via": case.get("via", "ctor")}
+                "via": case.get("via", "ctor"), "S returns": case.get("cont", "list")}
 
     # ------------------------------------------------------------------ findings / shrinking
     def classify(self, case, impl_out, msg):
@@ -539,6 +564,8 @@ class P(Prop):
         T = len(n)
         base = {k: v for k, v in case.items() if k not in ("n", "P", "Q")}
         base["kind"] = "one"
+        if case.get("cont", "list") != "list":
+            yield dict(case, kind="one", cont="list")
         if T > 1:   # drop the last / the first epoch
             yield dict(base, n=n[:-1], P=Pt[:-1], Q=Qt[:-1])
             yield dict(base, n=n[1:], P=Pt[1:], Q=Qt[1:])
